@@ -139,7 +139,13 @@ func checkCase(c Case) (out evid.Outcome) {
 			}
 			n, err := w.Write(make([]byte, op.V))
 			s.short = 0
-			if n != wantN || (err != nil) != wantErr {
+			if c.Method == http.MethodHead {
+				// nothing is forwarded; the statement leaves the reported count open
+				// (all bytes "consumed", or none), but it is not an error
+				if err != nil || (n != op.V && n != 0) {
+					return fail(out, "write-result", "%s: Write on a HEAD request returned (%d, %v)", desc, n, err)
+				}
+			} else if n != wantN || (err != nil) != wantErr {
 				return fail(out, "write-result", "%s: Write returned (%d, %v), the underlying writer took %d bytes (error=%v)", desc, n, err, wantN, wantErr)
 			}
 		case "f":
